@@ -33,6 +33,18 @@ structure St where
   /-- the checkpoint whose handle that held save will return -/
   heldId : Option Nat := none
 
+/-- values are printed in hex when short, as length and checksum when long (the 64 KB values of large WAL segments) -/
+def showVal (v : Bytes) : String :=
+  if v.length ≤ 64 then toHex v
+  else "L" ++ toString v.length ++ "x" ++ toString (v.foldl (fun a b => (a * 131 + b.toNat) % 4294967291) 0)
+
+def showAnswer8 : Option Bytes → String
+  | some v => "val " ++ showVal v
+  | none => "absent"
+
+def showScan8 (r : Run) : String :=
+  if r.isEmpty then "empty" else joinWith "," (r.map fun e => toHex e.key ++ ":" ++ showVal e.val)
+
 def specOf (st : St) (id : Nat) : Spec := Ckpt.specAt st.sp.saved id
 
 def retainedDone (st : St) (id : Nat) : Bool :=
@@ -103,9 +115,9 @@ def step (st : St) (ws : List String) : St × String :=
   | ["put", k, v] => writeOp st false (hexOr k) (hexOr v) hint
   | ["del", k] => writeOp st true (hexOr k) [] hint
   | ["get", k] =>
-    (st, withSpec (showAnswer (answer (get st.s.db (hexOr k)))) (showAnswer (answer (Spec.get st.sp.m (hexOr k)))))
+    (st, withSpec (showAnswer8 (answer (get st.s.db (hexOr k)))) (showAnswer8 (answer (Spec.get st.sp.m (hexOr k)))))
   | ["scan", p] =>
-    (st, withSpec (showScan (scan st.s.db (hexOr p))) (showScan (specScan st.sp.m (hexOr p))))
+    (st, withSpec (showScan8 (scan st.s.db (hexOr p))) (showScan8 (specScan st.sp.m (hexOr p))))
   | ["bg", _] =>
     match hint with
     | ["none"] => (st, "none")
@@ -149,7 +161,7 @@ def step (st : St) (ws : List String) : St × String :=
     let i := natOr id
     if !retainedDone st i then (st, "refused") else
     match Ckpt.step st.s (.open i []) with
-    | some r => (st, withSpec (showScan (scan r.db [])) (showScan (specScan (specOf st i) [])))
+    | some r => (st, withSpec (showScan8 (scan r.db [])) (showScan8 (specScan (specOf st i) [])))
     | none => (st, "failed")
   | ["intact"] => (st, "ok")
   | _ => (st, "bad-op")
